@@ -11,6 +11,10 @@
 (*   HexToInt(s)  = OS2IP(HexToBytes(s))                                    *)
 (*   HexLen(s)    = Len(HexToBytes(s))                                      *)
 (*   IntIsHex(x, n, s) = (HexLen(s) = n /\ HexToInt(s) = x)                 *)
+(*   IntToHex(x, n)    = BytesToHex(I2OSP(x, n))                             *)
+(*   HexSlice(s, i, j) = BytesToHex(SubSeq(HexToBytes(s), i + 1, j))         *)
+(*                       (bytes i .. j-1, zero based; "" when out of range)  *)
+(*   HexCat(s, t)      = BytesToHex(HexToBytes(s) \o HexToBytes(t))          *)
 (***************************************************************************)
 EXTENDS Integers, Sequences
 
@@ -21,4 +25,7 @@ BytesToHex(b) == Undefined(<<"BytesToHex", b>>)
 HexToInt(s)   == Undefined(<<"HexToInt", s>>)
 HexLen(s)     == Undefined(<<"HexLen", s>>)
 IntIsHex(x, n, s) == Undefined(<<"IntIsHex", x, n, s>>)
+IntToHex(x, n)    == Undefined(<<"IntToHex", x, n>>)
+HexSlice(s, i, j) == Undefined(<<"HexSlice", s, i, j>>)
+HexCat(s, t)      == Undefined(<<"HexCat", s, t>>)
 =============================================================================
